@@ -86,6 +86,14 @@ CLAIMED = {
          "points, replaying every trace on the model and judging assigned-once, nothing-lost, results-kept, lock exclusion and one-complete-copy on the traces.",
          "Lean kernel + three standard axioms; hooks (commits 8d4c01644, 541b02a2b); fcntl semantics as observed; PARTIAL: maxjobs and restart patterns neither modelled nor claimed; crash transitions judged by trace predicates only.",
          "6/C10"),
+ "C12": ("Lean 4 proof of exact identities over Q about basis functions regenerated from cubicspline.cc (values at knots, continuity, derivative jump = "
+         "row residual of the linear system, natural/periodic boundary rows, line exactness, superposition, Taylor identities = derivative consistency) "
+         "and about linear / Akima pieces and Table::Smooth + correspondence with exact residual certificates on the implementation's coefficients",
+         "Theorems hold for every grid with distinct knots, every ordinate and second-derivative vector; the numerical solve is certified per run by the exact "
+         "residual of the implementation's f2. Tied to the working tree by re-translating the basis functions on every run and by evaluating the real "
+         "CubicSpline / LinSpline / AkimaSpline / Table on generated grids (knots, ends, between, outside), including sums of data sets and spline fits.",
+         "Lean kernel + three standard axioms; translator tr_c12.py (cexpr); Eigen QR external; PARTIAL: csg_resample executable and least-squares optimality of Fit not covered.",
+         "6/C12"),
 }
 REASONS = {}
 
